@@ -130,6 +130,7 @@ PROPS = {
             ('inductive step (unbounded histories)', ['--cinit=ConstFixed', '--init=IndInit', '--inv=IndInv', '--length=1'], 'ok'),
             ('pinned build() violates C09', ['--cinit=ConstPinned', '--init=Init', '--inv=C09', '--length=3'], 'violation'),
         ],
+        tlaps=[('BuilderLen_proofs', ['BuilderLen'])],
         gens=dict(quick=BUILDER_QUICK, thorough=BUILDER_THOROUGH),
         models=[MC_BUILDER],
         rule='builder call sequences with set_length at every position and totals around 65535; after every call the '
